@@ -141,7 +141,7 @@ prop("C08", [
     "real-transport stage: rtnetlink in a private network namespace plays the kernel (every audit message type is refused with EOPNOTSUPP; unsolicited sequence-0 messages are address notifications caused by a raw socket); skipped without the privilege",
     "'identifies the errno' = errors.Is(err, errno), plus AddRule's documented 'rule exists' text for EEXIST",
     "at most 9 transient receive failures in a row (the property's bound); EAGAIN is rationed because the client sleeps 50 ms on it"],
-   nontrivial_classes=["op-with-errno", "op-with-foreign-reply", "op-with-interleaved-events", "op-with-transient-failures", "op-with-fault-send", "op-with-fault-recv", "op-with-fault-shortack", "op-with-fault-acktype"] +
+   nontrivial_classes=["op-with-17-or-more-rules-of-realistic-size", "op-with-errno", "op-with-foreign-reply", "op-with-interleaved-events", "op-with-transient-failures", "op-with-fault-send", "op-with-fault-recv", "op-with-fault-shortack", "op-with-fault-acktype"] +
                       ["op-" + o for o in ["GetStatus", "GetRules", "AddRule", "DeleteRule", "DeleteRules", "SetPID", "SetRateLimit", "SetBacklogLimit",
                                             "SetEnabled", "SetImmutable", "SetFailure", "SetBacklogWaitTime"]])
 
